@@ -22,7 +22,8 @@ SOURCES = ["formatting.PlaceholderMaker"]
 RULE = (
     "U7: PlaceholderMaker(text_tags, formatting_tags).do_tree on one or two mixed-content documents (nested / empty / adjacent / "
     "attributed formatting elements, nested text tags, comments inside text tags) for random subsets of the tag names as text and "
-    "formatting tags, half of them on a maker that has already processed another document: trees after do_tree, the placeholder "
+    "formatting tags, half of them on a maker that has already processed another document, and half of those histories undoing each "
+    "document before the next is substituted: trees after do_tree, the placeholder "
     "table (code point, role, close placeholder, key) and the trees after undo_tree compared with Placeholder.doTree / undoTree. "
     "Oracle on the real maker: undo_tree(do_tree(t)) equals t (None == ''), placeholder -> entry and key -> placeholder are "
     "injective, an element identical in two documents gets the same placeholder. Non-trivial = at least one formatting element "
@@ -31,7 +32,7 @@ RULE = (
 ASSUMPTIONS = ["documents without private-use characters; fewer than 6400 placeholders; namespace-free tags in the model"]
 
 TAGS = ["p", "b", "i", "a", "s"]
-WORDS = ["hello", "world", "there", "x", "lorem ipsum", " ", "a b", ""]
+WORDS = ["hello", "world", "there", "x", "lorem ipsum", " ", "a b", "", "\ufb01n", "ok \U0001F600", "\ufffd"]
 
 
 def mixed_tree(r, max_nodes=12):
@@ -42,7 +43,7 @@ def mixed_tree(r, max_nodes=12):
         if r.random() < 0.08:
             n = PNode("c", "", [], r.choice(["c", "note"]), r.choice([None, " t"]))
         else:
-            n = PNode("e", r.choice(TAGS), [("k", r.choice(["1", "2"]))] if r.random() < 0.2 else [], r.choice([None, None] + WORDS[:5]), r.choice([None] + WORDS))
+            n = PNode("e", r.choice(TAGS), [("k", r.choice(["1", "2"]))] if r.random() < 0.2 else [], r.choice([None, None] + WORDS[:5] + WORDS[8:]), r.choice([None] + WORDS))
             if n.text == "":
                 n.text = None
             if n.tail == "":
@@ -96,16 +97,25 @@ def _chunk(seed, lo, hi, extra):
         desc = {"documents": [xt.to_xml(d) for d in docs], "text_tags": text, "formatting_tags": fmt}
         maker = formatting.PlaceholderMaker(text_tags=text, formatting_tags=fmt)
         els = [xt.to_lxml(d) for d in docs]
+        # half of the histories undo each document before the next one is substituted (do, undo, do, undo on one maker);
+        # the model's table only grows, so its undo with the final table is the same function on the earlier documents
+        interleave = r.random() < 0.5
+        desc["history"] = "do,undo,do,undo" if interleave else "do,do,undo,undo"
         try:
-            for e in els:
-                maker.do_tree(e)
-            done = [xt.from_lxml(e) for e in els]
-            table = real_table(maker)
             undone = []
             for e in els:
-                c = copy.deepcopy(e)
-                maker.undo_tree(c)
-                undone.append(xt.from_lxml(c))
+                maker.do_tree(e)
+                if interleave:
+                    c = copy.deepcopy(e)
+                    maker.undo_tree(c)
+                    undone.append(xt.from_lxml(c))
+            done = [xt.from_lxml(e) for e in els]
+            table = real_table(maker)
+            if not interleave:
+                for e in els:
+                    c = copy.deepcopy(e)
+                    maker.undo_tree(c)
+                    undone.append(xt.from_lxml(c))
         except Exception as e:  # noqa
             st.failures.append({"sig": f"C11/raises/{real.exc_sig(e)}", **desc})
             continue
